@@ -655,6 +655,9 @@ def load_known():
 def replay(pid, path):
     with open(path) as f:
         rec = json.load(f)
+    if rec.get('kind') == 'crosshair':
+        from . import lemmas as _lem
+        return _lem.replay(pid, rec)
     from . import install
     install.load()
     prop = load_prop(pid)
@@ -800,12 +803,28 @@ def main(argv=None):
         else:
             tasks.append((pid, s.name, a.tier, seed, a.budget, None, dl))
     results = []
+    lem_box = []
+    lem_thread = None
+    if not a.only:
+        import threading
+        from . import lemmas as _lem
+
+        def _run_lemmas():
+            try:
+                lem_box.extend(_lem.run(pid))
+            except Exception as e:      # the second engine never decides a property on its own
+                lem_box.append(dict(lemma='*', engine='crosshair-tool (z3)', verdict='inconclusive',
+                                    detail='%s: %s' % (type(e).__name__, e)))
+        lem_thread = threading.Thread(target=_run_lemmas, daemon=True)
+        lem_thread.start()
     if a.serial or len(tasks) == 1:
         for t in tasks:
             results.append(run_scenario(t))
     else:
         results = _run_pool(tasks, min(a.jobs, len(tasks)))
-    return finish(pid, a, seed, prop, results, time.time() - t0)
+    if lem_thread is not None:
+        lem_thread.join(timeout=300)
+    return finish(pid, a, seed, prop, results, time.time() - t0, lem_box)
 
 
 def _merge_shards(results):
@@ -840,7 +859,7 @@ def _merge_shards(results):
     return [by[k] for k in order]
 
 
-def finish(pid, a, seed, prop, results, wall):
+def finish(pid, a, seed, prop, results, wall, lemmas_out=()):
     results = _merge_shards(results)
     known = load_known()
     violations = []
@@ -910,6 +929,14 @@ def finish(pid, a, seed, prop, results, wall):
         print('VIOLATION property=%s replay=%s' % (pid, v['replay']))
         print('  scenario=%s obligation=%s replay level=%d%s' % (v['scenario'], v['label'], v['level'],
                                                                  ' (real library crashed: %s)' % v['crash'] if v.get('crash') else ''))
+    lemma_viol = []
+    for lr in lemmas_out:
+        if lr.get('verdict') == 'violation':
+            from . import lemmas as _lem
+            pth = _lem.save_replay(pid, lr, os.environ.get('SX_REPLAY_DIR') or os.path.join(EVID, 'replays'))
+            lemma_viol.append(lr)
+            print('VIOLATION property=%s replay=%s' % (pid, pth))
+            print('  CrossHair lemma %s: %s' % (lr['lemma'], lr.get('call')))
     for i in inconclusive[:10]:
         print('INCONCLUSIVE property=%s scenario=%s obligation=%s: %s' % (pid, i['scenario'], i['label'], i['reason']))
     for e in errors[:10]:
@@ -938,6 +965,7 @@ def finish(pid, a, seed, prop, results, wall):
         second_solver=dict(solver='cvc5 %s' % _cvc5v(), what='a sample of the obligation queries z3 answered unsat, re-decided '
                            'from their SMT-LIB2 export', **{k: sum(r.get('xcheck', {}).get(k, 0) for r in real)
                                                            for k in ('checked', 'agree', 'unknown', 'disagree')}),
+        crosshair_lemmas=[{k: v for k, v in lr.items() if k != 'source'} for lr in lemmas_out],
         functions_encoded=sorted({f for r in results for f in r['functions']}),
         obligation_labels=_merge_labels(real),
         scenarios=[dict(name=r['scenario'], paths=r['paths'], nested_paths=r.get('sub_paths', 0), obligations=r['obligations'], wall_s=r['wall'],
@@ -957,7 +985,8 @@ def finish(pid, a, seed, prop, results, wall):
     )
     ev = dict(property_id=pid, tier=a.tier if a.tier in ('quick', 'thorough') else 'quick', seed=seed,
               level='model_checking', coverage=cov,
-              assumptions=getattr(prop, 'ASSUMPTIONS', []), wall_s=round(wall, 2), violations=len(confirmed))
+              assumptions=getattr(prop, 'ASSUMPTIONS', []), wall_s=round(wall, 2),
+              violations=len(confirmed) + len(lemma_viol))
     if not a.no_evidence and not a.only:
         os.makedirs(EVID, exist_ok=True)
         with open(os.path.join(EVID, '%s.json' % pid), 'w') as f:
@@ -965,7 +994,7 @@ def finish(pid, a, seed, prop, results, wall):
     print('%s %s: %d scenarios, %d paths, %d obligations (%d unsat), %d solver calls, %.1fs solver, %.1fs wall' % (
         pid, a.tier, len(results), states, cov['obligations'], cov['discharged'], cov['solver_calls'],
         cov['solver_time_s'], wall))
-    if confirmed:
+    if confirmed or lemma_viol:
         return 1
     if inconclusive or errors:
         return 2
